@@ -7,7 +7,8 @@
          the real flatten of a dict listing its items in this order
                                                         -> must equal Flatten of the canonical dict
      [kind |-> "key", ver, vvm, pre, kw, src]
-         inputs of a Verifier; the specification's Key is written to IOEnv.KEYS_OUT so that
+         inputs of a Verifier; the BYTES of the specification's key (KeyBytes: Key, then UTF-8)
+         are written to IOEnv.KEYS_OUT so that
          the harness can recompute the two CRC32 halves and compare module names
    Prints <<"VERDICT", k, clause>> for every bad record and finally <<"CHECKED", n>>. *)
 EXTENDS Flatten, Json, IOUtils
@@ -35,7 +36,7 @@ Check(i) == LET r == Recs[i] IN
 
 KeyRecs == {i \in DOMAIN Recs : Recs[i].kind = "key"}
 KeysOut == [i \in DOMAIN Recs |-> IF i \in KeyRecs
-                                  THEN Key(Recs[i].ver, Recs[i].vvm, Recs[i].pre, Recs[i].kw, Recs[i].src) ELSE <<>>]
+                                  THEN KeyBytes(Recs[i].ver, Recs[i].vvm, Recs[i].pre, Recs[i].kw, Recs[i].src) ELSE <<>>]
 
 TInit == k = 0
 TNext == \/ k < Len(Recs) /\ Check(k + 1) /\ k' = k + 1
